@@ -28,6 +28,12 @@ CLAIMED = {
          "symbolic execution of go/ssa + SMT; differential against a substitution oracle, template shapes case-split", "DESIGN.md §6 C15"),
  "C16": ("10 function bodies mixing lazy (#p), strict and variadic parameters (never forced, forced once/twice, forced on one control path, substitute, forced after the caller returned, two lazy forced in reverse order) x 8 call routes (name, alias, parameter, computed callee, apply, same-named caller locals, caller-local reference, extra argument), argument expressions are calls of the host trace function with symbolic values: value, error-ness and trace (which arguments were evaluated, how often, in what order) equal the reference evaluator (memoised thunks closed over the caller's frame); a probe function checks a strict function never receives an unevaluated argument on 7 routes.",
          "symbolic execution of go/ssa + SMT; differential against a reference evaluator with memoised thunks", "DESIGN.md §6 C16"),
+ "C06": ("(algorithm) operators installed with *symbolic* binding powers (1..2^20) and case-split associativity: the tree built by the real Pratt loop (InfixExpandArray/Expression/LeftBindingPower) for a op1 b op2 c (op3 d) equals an independent weakest-operator-is-root specification for every table - the solver enumerates the order types; (table) every ordered pair of the 17 documented binary operators parses to the tree the documented levels/associativity determine; (meaning) {a op b op' c} evaluates to the value of that prefix form for symbolic operands, statements run in order and the block's value is the last statement's.",
+         "symbolic execution of go/ssa + SMT; symbolic binding powers (all precedence tables), differential against a root-splitting specification", "DESIGN.md §6 C06"),
+ "C08": ("Bounded exhaustive case split executed by the symbolic engine with the OS boundary intercepted: in a bare sandbox and in sandbox+StandardSetup, every global binding, builtin, macro and special-form name (141 / 206 names) is called with 0..1 (quick) / 0..2 (thorough) arguments from 7 canary shapes; every function of os, os/exec, syscall, io/ioutil, net is an effect marker in the engine and the effect log must show no canary file read, no process start, no file creation, no environment access, no exit. The solver has no work here (no symbolic data); the technique's contribution is the interception on all paths of each callee and the native replay with real canary files.",
+         "symbolic-execution engine with OS-boundary effect markers; bounded exhaustive case split (no solver queries)", "DESIGN.md §6 C08"),
+ "C12": ("print->read round trips with symbolic data through the real printers (strconv.Quote/QuoteRune/Itoa interpreted or modelled) and the real lexer/parser: every char below U+0250 (quick) / U+1000 (thorough), every string of 1 (quick) / 2 (thorough) such runes, ints of up to 5 / 9 digits, numeric literal spellings of up to 3 symbolic digits in decimal (with underscore), hex, octal, binary, ULL and signed form against a Horner evaluation, lists/arrays of atoms.",
+         "symbolic execution of go/ssa + SMT; symbolic runes/digits through printer and reader", "DESIGN.md §6 C12"),
 }
 NA = {
  "C10": "record<->Go struct conversion is a reflect walk (runtime/unsafe code, no SSA to execute); a model of reflect faithful enough to judge it would itself be the thing under test",
